@@ -15,10 +15,10 @@ def evaluate(e, env):
         except Unsupported: raise Unsupported("attribute %s" % key)
         if isinstance(base, dict) and ("." + e.attr) in base: return base["." + e.attr]      # sample object: {'.attr': value}
         raise Unsupported("attribute %s" % key)
-    if isinstance(e, (ast.ListComp, ast.GeneratorExp)):
+    if isinstance(e, (ast.ListComp, ast.GeneratorExp, ast.SetComp, ast.DictComp)):
         out = []
         def gen(i, env2):
-            if i == len(e.generators): out.append(evaluate(e.elt, env2)); return
+            if i == len(e.generators): out.append((evaluate(e.key, env2), evaluate(e.value, env2)) if isinstance(e, ast.DictComp) else evaluate(e.elt, env2)); return
             g = e.generators[i]
             def bind(tg, v, env3):
                 if isinstance(tg, ast.Name): env3[tg.id] = v
@@ -30,7 +30,7 @@ def evaluate(e, env):
             for v in evaluate(g.iter, env2):
                 env3 = dict(env2); bind(g.target, v, env3)
                 if all(evaluate(c, env3) for c in g.ifs): gen(i + 1, env3)
-        gen(0, env); return out
+        gen(0, env); return dict(out) if isinstance(e, ast.DictComp) else (set(out) if isinstance(e, ast.SetComp) else out)
     if isinstance(e, ast.Name):
         if e.id in env: return env[e.id]
         raise Unsupported("name %s " % e.id)
@@ -67,7 +67,10 @@ def evaluate(e, env):
             lo = evaluate(e.slice.lower, env) if e.slice.lower else None; hi = evaluate(e.slice.upper, env) if e.slice.upper else None
             st = evaluate(e.slice.step, env) if e.slice.step else None
             return v[lo:hi:st]
-        return v[evaluate(e.slice, env)]
+        try: return v[evaluate(e.slice, env)]
+        except KeyError: raise Raised("KeyError")
+        except IndexError: raise Raised("IndexError")
+        except TypeError as te: raise Unsupported("subscript: %s" % te)
     if isinstance(e, ast.JoinedStr):
         return "".join(str(evaluate(v.value, env)) if isinstance(v, ast.FormattedValue) else v.value for v in e.values)
     if isinstance(e, ast.Call):
@@ -131,7 +134,12 @@ def evaluate(e, env):
         try: fv = evaluate(e.func, env)
         except Unsupported: fv = None
         if isinstance(fv, Callee) and not e.keywords: return fv(*[evaluate(a, env) for a in e.args])
+        if isinstance(fv, PyFn): return fv.fn(*[evaluate(a, env) for a in e.args], **{k.arg: evaluate(k.value, env) for k in e.keywords if k.arg})
     raise Unsupported("expression outside the supported subset : " + ast.unparse(e)[:80])
+class PyFn:
+    """a Python function supplied by the analysis as the meaning of a name of the analysed program (a stub for a library call or
+    for a function whose effect is modelled, e.g. fnmatch.fnmatch, language_descriptions)"""
+    def __init__(s, fn): s.fn = fn
 class Callee:
     """stand-in for a callable object of the analysed program: calling it records its tag and returns ('result', tag)"""
     def __init__(s, tag, log, ret="result"): s.tag, s.log, s.ret = tag, log, ret
@@ -170,6 +178,7 @@ def run_block(stmts, env, max_steps=2000):
             if isinstance(s, ast.Expr) and isinstance(s.value, ast.Constant): continue
             if isinstance(s, (ast.Pass, ast.Import, ast.ImportFrom)): continue
             if isinstance(s, ast.Return): raise _Return(evaluate(s.value, env) if s.value is not None else None)
+            if isinstance(s, ast.Raise) and s.exc is None and env.get("__exc__") is not None: raise env["__exc__"]
             if isinstance(s, ast.Raise):
                 c = s.exc
                 raise Raised(c.func.id if isinstance(c, ast.Call) and isinstance(c.func, ast.Name) else ast.unparse(c) if c is not None else "re-raise")
@@ -218,13 +227,20 @@ def run_block(stmts, env, max_steps=2000):
                 try:
                     try: block(s.body)
                     except Raised as r:
-                        if not s.handlers: raise
-                        h = s.handlers[0]
+                        def names(t):
+                            if t is None: return None
+                            if isinstance(t, ast.Tuple): return [n_ for x in t.elts for n_ in names(x)]
+                            return [t.attr if isinstance(t, ast.Attribute) else getattr(t, "id", "?")]
+                        h = next((h_ for h_ in s.handlers if names(h_.type) is None or r.cls in names(h_.type) or any(n_ in ("Exception", "BaseException") for n_ in names(h_.type)) or ("TextXError" in names(h_.type) and r.cls.startswith("TextX"))), None)
+                        if h is None: raise
                         if h.name: env[h.name] = {".cls": r.cls}
-                        block(h.body)
+                        prev = env.get("__exc__"); env["__exc__"] = r
+                        try: block(h.body)
+                        finally: env["__exc__"] = prev
                     else: block(s.orelse)
                 finally: block(s.finalbody)
                 continue
+            if isinstance(s, (ast.Global, ast.Nonlocal)): continue
             if isinstance(s, ast.Expr) and isinstance(s.value, ast.Call):
                 evaluate(s.value, env); continue
             if isinstance(s, ast.Break): raise _Break()
